@@ -104,6 +104,42 @@ def r3_vint64_length(c):
              "%s has no length == 9 case" % label, g)
 
 
+def r4_check_eor_callers(c):
+    """`check_eor(k)` promises k more *bytes*.  Inside a ByteReader implementation it guards that
+    implementation's own k-byte read.  Anywhere else (the provided generic methods, Deserializable
+    impls) it is acceptable only in front of a read of exactly k bytes; in front of a list of
+    elements it rejects encodings whose elements are empty (`()`, `[T; 0]`)."""
+    from ..ir import callee_of, op_local
+    p = c.p
+    n = 0
+    for k, f in sorted(p.funcs.items()):
+        if f.crate not in ("winter_utils", "winter_math", "winter_crypto", "winter_air", "winter_fri") or not f.blocks:
+            continue
+        it = f.raw.get("impl_trait") or ""
+        if it.endswith("byte_reader::ByteReader"):
+            continue
+        for bi, t in f.calls():
+            cc = callee_of(t)
+            if f.is_cleanup(bi) or not cc or cc.get("name") != "check_eor" or "ByteReader" not in (cc.get("trait") or cc["def"]):
+                continue
+            n += 1
+            amt = t["a"][1]
+            edges = [e for ch in f.result_checks(bi) for e in ch["pass_edges"]]
+            region = f.reach([tg for _, tg in edges]) if edges else set()
+            ok = False
+            for b2, t2 in f.calls():
+                c2 = callee_of(t2)
+                if b2 in region and c2 and c2.get("name") in ("read_slice", "read_vec") and len(t2["a"]) == 2:
+                    la, lb = op_local(amt), op_local(t2["a"][1])
+                    if la is not None and lb is not None and f.copy_chain(la) & f.copy_chain(lb):
+                        ok = True
+            c.ob("R4", "check_eor-guards-a-byte-read", ok,
+                 "check_eor(k) is followed by a read of exactly k bytes" if ok else
+                 "check_eor(k) is called outside a ByteReader implementation with k not the size of the following byte read: element counts are not byte counts (elements may have empty encodings)",
+                 f, t["sp"]["at"])
+    c.ob("R4", "check_eor-callers-enumerated", True, "%d calls to check_eor outside ByteReader implementations" % n, "winter_utils", nontrivial=False)
+
+
 def run(ctx):
     ctx.rule("R2", "no undischarged panic / abort / unbounded-allocation site reachable from SliceReader methods, ByteReader provided methods and the primitive Deserializable impls on arbitrary bytes (A5)", 20)
     ctx.rule("ENTRY", "entry points resolved from the impl table", 1)
@@ -117,6 +153,8 @@ def run(ctx):
     if hasattr(c07, "run_schema"):
         ctx.rule("R1", "writer/reader schema agreement for the primitive impls in winter_utils::serde", 10)
         ctx.guard("R1", lambda c: c07.run_schema(c, "R1", only_crates=("winter_utils",)))
+    ctx.rule("R4", "check_eor(k) outside ByteReader implementations only guards a read of exactly k bytes (none today)", 1)
+    ctx.guard("R4", r4_check_eor_callers)
     ctx.rule("R3", "usize_encoded_len equals the documented vint64 length on all 65 leading-zero classes; write_usize takes its length from it; writer and reader both special-case 9 bytes", 5)
     ctx.guard("R3", r3_vint64_length)
     ctx.assume("the shift arithmetic of write_usize/read_usize (value << length, >> length) is value-level and not decided; only the length table and its wiring are")
